@@ -41,7 +41,7 @@ LEVEL_TEXT = ("Lean theorems, all by induction over operation histories of any l
               "Sequences()) after every step.")
 LEVEL_NOTE = ("Trusted: Lean kernel; harness/oracle/driver; the hand-written model of seqbag.go/align.go is validated against the "
               "implementation on generated histories only; regexp (CleanNames is modelled directly; for RenameRegexp and the regex Replace the harness "
-              "evaluates Go's regexp on every name before the call and hands the values to the model in the step's status), fmt, "
+              "evaluates Go's regexp on every name / every sequence before the call and hands the values to the model in the step's status), fmt, "
               "sort.SliceStable, math/rand (replica) are external.")
 TECHNIQUE = "Lean 4 proof (refinement of the Go-shaped container to a plain-list reference model for all 39 operations, representation / rectangularity / distinct-names invariants, all by induction over histories) + differential correspondence"
 RULE = ("random histories of 1..12 (quick) / 1..40 (thorough) operations over alignments (0..5 rows x 0..8 columns) and "
